@@ -1312,7 +1312,12 @@ static void union_initializer(Token **rest, Token *tok, Initializer *init) {
 //             | struct-initializer | union-initializer
 //             | assign
 static void initializer2(Token **rest, Token *tok, Initializer *init) {
-  if (init->ty->kind == TY_ARRAY && tok->kind == TK_STR) {
+  // A string literal initializes an array of character type as a whole
+  // (C11 6.7.9p14-15). For any other array it is the initializer of
+  // the array's first scalar, reached by brace elision (6.7.9p20), e.g.
+  // `struct { char *p[2]; } x = { "ab", "cd" };`.
+  if (init->ty->kind == TY_ARRAY && is_integer(init->ty->base) &&
+      tok->kind == TK_STR) {
     string_initializer(rest, tok, init);
     return;
   }
